@@ -54,6 +54,20 @@ fn gen_strings(rng: &mut Rng, m: &Matcher, ws: &[Vec<u8>], eos: u32, n: usize) -
             out.push(t);
         }
     }
+    // the same strings with the case of one letter flipped (the i flag)
+    let flipped: Vec<Vec<u8>> = out
+        .iter()
+        .filter(|s| s.iter().any(|b| b.is_ascii_alphabetic()))
+        .take(4)
+        .map(|s| {
+            let mut t = s.clone();
+            let idx: Vec<usize> = (0..t.len()).filter(|&i| t[i].is_ascii_alphabetic()).collect();
+            let i = idx[rng.below(idx.len())];
+            t[i] ^= 0x20;
+            t
+        })
+        .collect();
+    out.extend(flipped);
     // random strings over the alphabet
     for _ in 0..n / 2 {
         let l = rng.below(6);
@@ -77,6 +91,55 @@ pub fn case(rng: &mut Rng, out: &mut Out) {
         rx.to_lark_term(&mut t);
         format!("start: T\nT: {t}\n")
     };
+    case_with(rng, out, rx, lark, ext, as_regex);
+}
+
+/// the i flag on strings and regexes ("ab"i, /[a-c]x+/i): ASCII letters match in either case; the
+/// model gets the expanded expression (a class of both cases per letter)
+pub fn flag_case(rng: &mut Rng, out: &mut Out) {
+    let both = |c: u8| -> Rx {
+        if c.is_ascii_alphabetic() { Rx::Class(vec![(c.to_ascii_uppercase(), c.to_ascii_uppercase()), (c.to_ascii_lowercase(), c.to_ascii_lowercase())]) } else { Rx::Lit((c as char).to_string()) }
+    };
+    let mut parts: Vec<Rx> = vec![];
+    let mut lark_parts: Vec<String> = vec![];
+    for _ in 0..rng.range(1, 3) {
+        match rng.below(4) {
+            0 => {
+                // "lit"i
+                let l: String = (0..rng.range(1, 3)).map(|_| *rng.pick(&['a', 'b', 'X', 'e', '0', 'd', 'C'])).collect();
+                parts.push(Rx::Cat(l.bytes().map(both).collect()));
+                lark_parts.push(format!("\"{l}\"i"));
+            }
+            1 => {
+                // /[lo-hi]+x/i  (a lower-case class under the flag also matches the upper-case letters)
+                let (lo, hi) = *rng.pick(&[(b'a', b'c'), (b'b', b'e'), (b'x', b'x'), (b'a', b'a')]);
+                let tail = *rng.pick(&[b'x', b'd', b'1']);
+                let cls = Rx::Class(vec![(lo.to_ascii_uppercase(), hi.to_ascii_uppercase()), (lo, hi)]);
+                let (rep, q) = if rng.chance(1, 2) { (Rx::Rep(Box::new(cls), 1, None), "+") } else { (Rx::Rep(Box::new(cls), 0, Some(1)), "?") };
+                parts.push(Rx::Cat(vec![rep, both(tail)]));
+                lark_parts.push(format!("/[{}-{}]{q}{}/i", lo as char, hi as char, tail as char));
+            }
+            2 => {
+                // plain literal: case matters
+                let l: String = (0..rng.range(1, 2)).map(|_| *rng.pick(&['a', 'B', 'x', '1'])).collect();
+                parts.push(Rx::Lit(l.clone()));
+                lark_parts.push(format!("\"{l}\""));
+            }
+            _ => {
+                // /(ab|C)/i
+                let (u, v) = (*rng.pick(&["ab", "ba", "e"]), *rng.pick(&["C", "x", "d0"]));
+                parts.push(Rx::Alt(vec![Rx::Cat(u.bytes().map(both).collect()), Rx::Cat(v.bytes().map(both).collect())]));
+                lark_parts.push(format!("/({u}|{v})/i"));
+            }
+        }
+    }
+    let rx = Rx::Cat(parts);
+    let lark = format!("start: T\nT: {}\n", lark_parts.join(" "));
+    out.count("flag_cases", 1);
+    case_with(rng, out, rx, lark, false, false);
+}
+
+fn case_with(rng: &mut Rng, out: &mut Out, rx: Rx, lark: String, ext: bool, as_regex: bool) {
     let (ws, eos) = if rng.chance(1, 3) { single_byte_vocab() } else { gen_engine_vocab(rng, 40) };
     let env = make_env(&ws, eos, false);
     let m = match new_matcher(&env, &lark, &[]) {
@@ -191,5 +254,9 @@ pub fn run(rng: &mut Rng, out: &mut Out, tier: &str) {
     for i in 0..n {
         let mut r = rng.fork(i as u64);
         case(&mut r, out);
+        if i % 5 == 0 {
+            let mut r = rng.fork(0x0400_0000 + i as u64);
+            flag_case(&mut r, out);
+        }
     }
 }
